@@ -99,7 +99,11 @@ class Subj(Renderable):
             used_after_finalize.append(render_data[Subj].token)
         self.log.append((data.frame_offset, int(data.seek_whence), tuple(data.size), data.duration if self.animated else None, render_args[Subj].tag))
         if self.on_render is not None:
+            was = render_data.finalized
             self.on_render()
+            if render_data.finalized and not was:
+                # finalized underneath the render that is using it
+                used_after_finalize.append(render_data[Subj].token)
         if self.fail_at and self.fail_at[0] == self.calls:
             raise self.fail_at[1]
         if self._frame_count is FrameCount.INDEFINITE and data.iteration:
